@@ -14,7 +14,8 @@ RULE = ("generated shots with the sight above / on / below the bore, barrel abov
         "station, coarse step) whose projectile falls back through Mach 1 a second time; requests with extra_data over "
         "generated ranges, steps and time steps, some with tight limits ending in RangeError; a step trace of the same "
         "shot provides the integration points from which the expected events are derived independently; non-trivial = "
-        ">= 2 events of different kinds, or a zero event with look != 0, or >= 2 Mach events; distinct = distinct case dicts")
+        ">= 2 events of different kinds, or a zero event with look != 0, or >= 2 Mach events; distinct = distinct case dicts; in 4 of 7 cases the calculator under test has a past (build.calculator prior: extra-data fire / "
+        "subsonic fire / zeroing / RangeError for another fixed shot)")
 ASSUMPTIONS = ["the step trace is representative of the request's integration points (what is recorded does not change what is computed: C11)",
                "a launch exactly on the sight line (muzzle height 0) is a don't-care for the first crossing",
                "the terminal row of a RangeError run is not a loop-top point and is excluded from the event model, but must not repeat a zero flag"]
